@@ -21,7 +21,7 @@ import textwrap
 from .. import common, tlc, vsched
 from ..vsched import vqueue, vtime
 
-SERIALS = ['A1B2C3D4E5', '0123456789', 'FFFFFFFF00', 'E7E7E7E7E7', '00000000AB']
+SERIALS = ['A1B2C3D4E5', '0000000005', 'FFFFFFFF00', 'E7E7E7E7E7', '00000000AB']
 IDENT = list(range(len(SERIALS)))
 RATES = ['250K', '1M', '2M']
 DEFAULT_ADDR = [0xE7] * 5
